@@ -425,7 +425,12 @@ func (r *ComboRoute) route(fn func(string, ...Handler) *Route, method string, ha
 	}
 	r.added[method] = struct{}{}
 
-	r.lastRoute = fn(r.routePath, append(r.handlers, handlers...)...)
+	// Allocate a new slice for every route, otherwise routes of different methods
+	// could share (and overwrite) the spare capacity of "r.handlers".
+	hs := make([]Handler, 0, len(r.handlers)+len(handlers))
+	hs = append(hs, r.handlers...)
+	hs = append(hs, handlers...)
+	r.lastRoute = fn(r.routePath, hs...)
 	return r
 }
 
